@@ -23,11 +23,9 @@ import (
 	"fmt"
 	"os"
 	"path/filepath"
-	"strconv"
 	"strings"
 	"sync"
 	"sync/atomic"
-	"testing"
 	"time"
 
 	"github.com/WuKongIM/WuKongIM/pkg/raftlog"
@@ -92,34 +90,21 @@ func c14Tweak() {
 	c14TweakOnce.Do(func() {
 		c14Cache = pebble.NewCache(4 << 20)
 		c14Router = crashfs.NewRouter()
-		raftlog.VerifFS = c14Router
-		raftlog.VerifTweak = func(o *pebble.Options) {
-			o.MemTableSize = 64 << 10
-			o.Cache = c14Cache
-		}
 	})
+	raftlog.VerifFS = c14Router
+	raftlog.VerifTweak = func(o *pebble.Options) {
+		o.MemTableSize = 64 << 10
+		o.Cache = c14Cache
+		o.Logger = c14QuietLogger{} // pebble logs three lines per Open to stderr otherwise
+	}
 }
 
-func c14SweepStale() {
-	ents, _ := os.ReadDir("/dev/shm")
-	for _, e := range ents {
-		n := e.Name()
-		if !strings.HasPrefix(n, c14DirPrefix) {
-			continue
-		}
-		rest := strings.TrimPrefix(n, c14DirPrefix)
-		pidStr := rest
-		if i := strings.IndexByte(rest, '-'); i >= 0 {
-			pidStr = rest[:i]
-		}
-		pid, err := strconv.Atoi(pidStr)
-		if err != nil || pid == os.Getpid() {
-			continue
-		}
-		if _, err := os.Stat(fmt.Sprintf("/proc/%d", pid)); os.IsNotExist(err) {
-			_ = os.RemoveAll(filepath.Join("/dev/shm", n))
-		}
-	}
+type c14QuietLogger struct{}
+
+func (c14QuietLogger) Infof(string, ...interface{})  {}
+func (c14QuietLogger) Errorf(string, ...interface{}) {}
+func (c14QuietLogger) Fatalf(f string, a ...interface{}) {
+	panic(fmt.Sprintf("pebble fatal: "+f, a...))
 }
 
 func c14OpenBackend() (*c14Backend, error) {
@@ -391,11 +376,11 @@ func (in *c14Inst) Check() error {
 
 // ---------------------------------------------------------------- test
 
-func TestVerifC14(t *testing.T) {
-	r := ev.Start(t, "C14")
-	defer r.Finish()
-	c14SweepStale()
+func init() { raftlog.VerifC14OpenPart = c14OpenPart }
+
+func c14OpenPart(r *ev.R) {
 	c14Tweak()
+	defer func() { raftlog.VerifFS, raftlog.VerifTweak = nil, nil }()
 	defer c14DrainPool()
 
 	r.Assume("Histories are Raft-valid by construction: indexes are contiguous, only the uncommitted suffix is overwritten, snapshot indexes only grow and are >= the commit index, compaction snapshots are taken at the applied index with the entry's term and the configuration reached there.")
